@@ -97,6 +97,15 @@ def main():
             m = evaluate(d, prop, checks)
             print(json.dumps({k: m.get(k) for k in ("name", "patch_applies", "repo_tests", "demo_on_clean_tree_rc",
                                                      "demo_on_changed_tree_rc", "checks")}, indent=1))
+    elif cmd == "reconfirm":
+        sub = sys.argv[2]
+        for name in sorted(os.listdir(os.path.join(HERE, "seeded"))):
+            d = os.path.join(HERE, "seeded", name)
+            if sub in name and os.path.exists(os.path.join(d, "meta.json")):
+                meta = json.load(open(os.path.join(d, "meta.json")))
+                m = evaluate(d, meta["property"], list(meta.get("checks", {})) or [meta["property"]], confirm=True)
+                print(name, "clean", m.get("demo_on_clean_tree_rc"), "changed", m.get("demo_on_changed_tree_rc"), m.get("repo_tests"),
+                      {c: (v["caught"], v["mechanisms"][:3]) for c, v in m["checks"].items()})
     elif cmd == "rerun":
         sub = sys.argv[2] if len(sys.argv) > 2 else ""
         for name in sorted(os.listdir(os.path.join(HERE, "seeded"))):
